@@ -124,13 +124,16 @@ def oracle(case, block, cap):
     nxt = {t: 0 for t in recs}
     stop_at = None      # number of appends completed when stop() / the stopping destructor was called
     started = False
-    ended, file_items, err_notes = None, None, None
+    ended, file_items, err_notes, stop_items = None, None, None, None
     for l in block:
         if l.startswith("<<"):
             extra = [x for x in block if x.startswith("# stderr")]
             return [("crash", "the implementation run ended abnormally: %s %s" % (l, " | ".join(extra)))]
         if l.startswith("# file"):
             file_items = l.split()[2:]
+            continue
+        if l.startswith("# stop-file"):
+            stop_items = l.split()[2:]
             continue
         if l.startswith("# stderr-notes"):
             err_notes = int(l.split()[2])
@@ -163,6 +166,16 @@ def oracle(case, block, cap):
     if file_items is None:
         return [("trace", "no `# file` line")]
 
+    if stop_items is not None:
+        # "when stop() returns, everything appended before the call is on disk": judged on the files as they were then
+        bad = judge_items(recs, order, stop_at, stop_items, None, cap)
+        if bad:
+            return [(bad[0][0], "at the moment stop() returned: " + bad[0][1])]
+    return judge_items(recs, order, stop_at, file_items, err_notes, cap)
+
+
+def judge_items(recs, order, stop_at, file_items, err_notes, cap):
+    """the items found in the files (at some moment) against the appends (in mutex order) and the stop() call"""
     pos = {r: i for i, r in enumerate(order)}
     on_disk = []        # (index in `order`, index among the file items)
     notes = []          # (index among the file items, buffers announced)
@@ -397,6 +410,9 @@ class Runner:
         s = c.schedules[0]
         if s:
             yield ACase(c.main, c.threads, [[]], c.spurious, c.origin)
+            for k in (len(s) // 2, len(s) * 3 // 4, len(s) - 1):
+                if 0 < k < len(s):
+                    yield ACase(c.main, c.threads, [s[:k]], c.spurious, c.origin)
         for t in range(len(c.threads)):
             yield ACase(c.main, c.threads[:t] + c.threads[t + 1:], [s], c.spurious, c.origin)
         if c.spurious:
@@ -416,7 +432,7 @@ class Runner:
             if s[i] > 1:
                 yield ACase(c.main, c.threads, [s[:i] + [s[i] % 2] + s[i + 1:]], c.spurious, c.origin)
 
-    def minimise(self, c, still, budget=120):
+    def minimise(self, c, still, budget=300):
         calls = 0
         progress = True
         while progress and calls < budget:
